@@ -240,3 +240,20 @@ func init() {
 		return r
 	})
 }
+
+func init() {
+	// maps.Clone goes through a runtime primitive: a fresh map with the same entries (shallow, as documented)
+	reg("maps.Clone", func(ex *Exec, fr *frame, pos token.Pos, args []value) value {
+		m, ok := args[0].(*MapV)
+		if !ok || m == nil {
+			return args[0]
+		}
+		c := &MapV{keyT: m.keyT}
+		for _, e := range m.entries {
+			if !e.deleted {
+				c.entries = append(c.entries, &mapEntry{k: e.k, v: e.v})
+			}
+		}
+		return c
+	})
+}
